@@ -8,6 +8,7 @@ STAGES = [
     Stage("extrasmoother-thread-limit", "p07_extrasmoother", "plain", {"quick": 60, "thorough": 2000}, offset=2000000, timeout_per_case=120, env={"OMP_THREAD_LIMIT": "2"}),
 ]
 THRESHOLDS = {
+    "reused_object_equals_fresh_object": 1e-10,   # second problem written into the same rhs buffer: swept object vs fresh object, / |x|
     "coarse_nodes_bit_identical": 0.5,       # memcmp of every (even i_r, even i_theta) value before/after
     "white_fine_node_residual": 1e-12,       # reference residual on fine-only nodes of the last-updated colour
     "dirichlet_fine_nodes_equal_data": 0.5,
